@@ -493,7 +493,9 @@ def contract_call(ex, c, fi, recv, pos, kw, st, fr):
             if sym.BOUND is None:
                 post.assume(z3.ForAll([i], z3.Implies(z3.And(0 <= i, i < n0), newarr[i] == oldarr[i]), patterns=[newarr[i]]))
             else:
-                post.assume(*[z3.Implies(n0 > c_, newarr[c_] == oldarr[c_]) for c_ in range(2 * sym.BOUND + 4)])
+                # bounded mode: the trace of this activation starts at index 0 (no loss of generality)
+                sym.SIDE.append(z3.Int('h:$trlen') == 0)
+                post.assume(*[z3.Implies(n0 > c_, newarr[c_] == oldarr[c_]) for c_ in range(2 * sym.BOUND + 6)])
     # allocation only grows
     r = z3.Const('cc_r', Ref)
     if sym.BOUND is None:
@@ -530,6 +532,9 @@ def contract_call(ex, c, fi, recv, pos, kw, st, fr):
         del ns.heap.maps[k]
     ev_state = _spec_state(ns, args, old)
     ev_state.loc['result'] = res
+    for gname, gty in (getattr(c, 'ghost_results', None) or {}).items():
+        # ghost locals the callee's postconditions mention: some values exist that make them true
+        ev_state.loc[gname] = fresh_value(sym.Ty('imap') if gty == 'imap' else sym.parse_ty(gty), gname)
     for nm, text in c.ensures:
         ns.assume(ex.specs.eval_bool(ex, text, ev_state, cfr))
     ns.loc = saved_loc
